@@ -89,3 +89,14 @@ func DefaultRtpUnpackerFactory(payloadType base.AvPacketPt, clockRate int, maxSi
 	}
 	return NewRtpUnpackContainer(maxSize, protocol)
 }
+
+// rtpTimestamp2Ms converts an RTP timestamp to milliseconds at the given clock rate.
+//
+// Computed as timestamp*1000/clockRate so that clock rates that are not a multiple of 1000 (44100, 22050,
+// 11025) do not drift, and a clock rate below 1000 (taken from the peer's SDP) cannot divide by zero.
+func rtpTimestamp2Ms(timestamp uint32, clockRate int) int64 {
+	if clockRate <= 0 {
+		return int64(timestamp)
+	}
+	return int64(uint64(timestamp) * 1000 / uint64(clockRate))
+}
